@@ -52,7 +52,7 @@ pub fn run(args: &Args) {
         &report,
         "c17-histories",
         cases,
-        200,
+        100,
         c17_hist_seed,
         |seed| {
             let built = build_history(seed);
